@@ -34,8 +34,34 @@ pub use shuttle;
 /// True iff the caller runs inside a shuttle execution.
 pub fn in_shuttle() -> bool { shuttle::current::get_current_task().is_some() }
 
+::std::thread_local! {
+    static NO_SWITCH: ::std::cell::Cell<u32> = const { ::std::cell::Cell::new(0) };
+}
+
+/// While a value of this type is alive, `point()` (and with it every lock
+/// acquisition of the `parking_lot` shim) is not a scheduling point. Used
+/// around code that holds a lock of a primitive the scheduler does not know
+/// (an `scc` bucket): switching to another task there would block the one OS
+/// thread all tasks share.
+pub struct NoSwitch(());
+
+impl NoSwitch {
+    #[must_use]
+    pub fn enter() -> Self {
+        NO_SWITCH.with(|c| c.set(c.get() + 1));
+        Self(())
+    }
+}
+
+impl Drop for NoSwitch {
+    fn drop(&mut self) { NO_SWITCH.with(|c| c.set(c.get() - 1)); }
+}
+
 /// Explicit scheduling point (no-op outside shuttle).
 pub fn point(_label: &'static str) {
+    if NO_SWITCH.with(::std::cell::Cell::get) > 0 {
+        return;
+    }
     if in_shuttle() {
         // a plain context-switch opportunity (not a "yield": the running
         // task does not ask to be descheduled)
@@ -195,10 +221,69 @@ pub mod task_shim {
     pub struct JoinHandle<T> {
         inner: shuttle::future::JoinHandle<()>,
         slot: Slot<T>,
+        abort: Arc<AbortState>,
+    }
+
+    /// Shared between a task and its handle: tokio's `abort` drops the
+    /// task's future the next time the task is scheduled (running the
+    /// destructors of everything the future holds); shuttle's own `abort`
+    /// only retires the task. The wrapper below reproduces tokio's behaviour.
+    #[derive(Default)]
+    struct AbortState {
+        aborted: ::std::sync::atomic::AtomicBool,
+        waker: Mutex<Option<::std::task::Waker>>,
+    }
+
+    struct Abortable<F: Future> {
+        fut: Option<Pin<Box<F>>>,
+        st: Arc<AbortState>,
+    }
+
+    impl<F: Future> Future for Abortable<F> {
+        type Output = Option<F::Output>;
+
+        fn poll(
+            mut self: Pin<&mut Self>,
+            cx: &mut Context<'_>,
+        ) -> Poll<Self::Output> {
+            if self.st.aborted.load(::std::sync::atomic::Ordering::SeqCst) {
+                // cancelled: the future is dropped here, inside the task
+                if let Some(f) = self.fut.take() {
+                    if let Err(p) =
+                        ::std::panic::catch_unwind(AssertUnwindSafe(move || {
+                            drop(f);
+                        }))
+                    {
+                        events::record_swallowed_panic(panic_message(&*p));
+                    }
+                }
+                return Poll::Ready(None);
+            }
+            *self.st.waker.lock().unwrap() = Some(cx.waker().clone());
+            let this = &mut *self;
+            match this.fut.as_mut() {
+                Some(f) => match f.as_mut().poll(cx) {
+                    Poll::Ready(v) => {
+                        this.fut = None;
+                        Poll::Ready(Some(v))
+                    }
+                    Poll::Pending => Poll::Pending,
+                },
+                None => Poll::Ready(None),
+            }
+        }
     }
 
     impl<T> JoinHandle<T> {
-        pub fn abort(&self) { self.inner.abort() }
+        pub fn abort(&self) {
+            self.abort
+                .aborted
+                .store(true, ::std::sync::atomic::Ordering::SeqCst);
+            let w = self.abort.waker.lock().unwrap().take();
+            if let Some(w) = w {
+                w.wake();
+            }
+        }
 
         pub fn is_finished(&self) -> bool { self.inner.is_finished() }
     }
@@ -249,9 +334,11 @@ pub mod task_shim {
     {
         let slot: Slot<F::Output> = Arc::new(Mutex::new(None));
         let slot2 = slot.clone();
+        let abort = Arc::new(AbortState::default());
+        let wrapped = Abortable { fut: Some(Box::pin(f)), st: abort.clone() };
 
         let inner = shuttle::future::spawn(async move {
-            let r = AssertUnwindSafe(f).catch_unwind().await;
+            let r = AssertUnwindSafe(wrapped).catch_unwind().await;
 
             // if nobody holds the handle any more the panic is lost in tokio
             let detached = Arc::strong_count(&slot2) == 1;
@@ -259,15 +346,20 @@ pub mod task_shim {
                 Err(p) if detached => {
                     events::record_swallowed_panic(panic_message(&*p));
                 }
-                r => {
-                    *slot2.lock().unwrap() = Some(r);
+                Err(p) => {
+                    *slot2.lock().unwrap() = Some(Err(p));
+                }
+                // aborted before it finished: the handle reports "cancelled"
+                Ok(None) => {}
+                Ok(Some(v)) => {
+                    *slot2.lock().unwrap() = Some(Ok(v));
                 }
             }
 
             on_done();
         });
 
-        JoinHandle { inner, slot }
+        JoinHandle { inner, slot, abort }
     }
 
     pub fn spawn<F>(f: F) -> JoinHandle<F::Output>
